@@ -54,7 +54,8 @@ def parse_cli(line):
                     comps[int(k)] = v
             h = mm.group(5)
             parsed[e] = dict(dead=False, pre=mm.group(3), marker=mm.group(4) == "1",
-                             last=None if h == "-" else int(h.split("/")[0]), comps=comps)
+                             last=None if h == "-" else int(h.split("/")[0]), comps=comps,
+                             mask=None if h == "-" or "/" not in h else int(h.split("/")[1], 16))
     return int(c), int(ut), ok == "1", parsed, ([] if extra == "-" else extra.split(";")), mt
 
 
@@ -118,6 +119,11 @@ class Trace:
         sess_counter = [0]
         last_got = {}          # (client, ty) -> last seq delivered (order check)
         upd_sent, upd_delivered, upd_applied = {}, {}, {}     # per client: ticks of update messages sent / how many delivered / applied
+        upd_des = {}                                          # per client: despawn list of every update message sent (same order)
+        # C11 "stops being re-sent afterwards": mutate messages by index, acknowledgements on their way, what the server has
+        # been told, and the tick at which each component's latest change first became visible to replication
+        mut_msgs, acks_inflight, acks_at_server, acked_tick, chg_tick, pending_chg = {}, {}, {}, {}, {}, set()
+        stopped_frames = None                                 # frames the server has run since a stop (None: running)
         pending_cops = {}
         maps = {}              # (client, entity) -> pre-spawn id the server registered
         pre_dead = set()       # (client, pre id) the client's own logic despawned
@@ -220,6 +226,7 @@ class Trace:
                         auth_tick_pending.add(c)
                     session[c] = dict(ut=None, last={}, extras=None)
                     upd_sent[c], upd_delivered[c], upd_applied[c] = [], 0, 0
+                    upd_des[c] = []
                     sess_counter[0] += 1
                     sess_id[c] = sess_counter[0]
             elif t[0] == "authorize":
@@ -232,6 +239,8 @@ class Trace:
                 if c in connected:
                     frames_since_disconnect[c] = 0
                 connected.pop(c, None)
+                acks_inflight.pop(c, None)
+                acks_at_server.pop(c, None)
                 authorized.discard(c)
                 auth_tick_pending.discard(c)
                 session.pop(c, None)
@@ -241,8 +250,20 @@ class Trace:
                     del maps[k_]          # the server forgets pre-spawn mappings with the connection
                 for k_ in [k_ for k_ in spec_vis if k_[0] == c]:
                     del spec_vis[k_]      # ... and its visibility settings
+            elif t[0] == "start":
+                stopped_frames = None
             elif t[0] == "stop":
                 epoch += 1
+                stopped_frames = 0
+                mut_msgs.clear(); acks_inflight.clear(); acks_at_server.clear(); acked_tick.clear()
+            elif t[0] in ("deliver", "drop") and t[2] == "c2s" and t[3] == "0":
+                c = int(t[1])
+                q_ = acks_inflight.get(c, [])
+                take_ = q_[:] if t[4] == "all" else (q_[:1] if t[4] == "first" else q_[-1:])
+                for a_ in take_:
+                    q_.remove(a_)
+                if t[0] == "deliver":
+                    acks_at_server.setdefault(c, []).extend(take_)
             elif t[0] == "deliver" and t[2] == "s2c" and t[3] == "0":
                 c = int(t[1])
                 if c in upd_sent:
@@ -250,7 +271,21 @@ class Trace:
                     upd_delivered[c] += pending_n if t[4] == "all" else min(1, pending_n)
             elif t[0] == "sframe":
                 self.stats["frames"] += 1
+                for c_, lists_ in list(acks_at_server.items()):
+                    for idxs_ in lists_:
+                        for ix_ in idxs_:
+                            mm_ = mut_msgs.get((sess_id.get(c_), c_, ix_))
+                            if mm_ is not None and c_ in authorized:
+                                for e_ in mm_[1]:
+                                    key_ = (sess_id.get(c_), c_, e_)
+                                    if key_ not in acked_tick or tick_lt(acked_tick[key_], mm_[0]):
+                                        acked_tick[key_] = mm_[0]
+                    acks_at_server[c_] = []
                 for op in pending_sops:
+                    if op[0] in ("mutate", "insert", "spawn"):
+                        for kv_ in op[(3 if op[0] == "spawn" else 2):]:
+                            if "=" in kv_ and kv_.split("=")[0].isdigit():
+                                pending_chg.add((int(op[1]), int(kv_.split("=")[0])))
                     if op[0] == "ev":
                         ty, mode, sq = op[1], op[2], int(op[3])
                         ok_mode = mode in ("b", "ds") or int(mode[1:]) in connected
@@ -324,6 +359,16 @@ class Trace:
                     if f[0] == "srv":
                         tick_now = int(kv_field(l, "tick"))
                         ran = kv_field(l, "ran") == "1"
+                        if stopped_frames is not None:
+                            stopped_frames += 1
+                            if stopped_frames == 1 and tick_now != 0 and not cfg.get("tick0"):
+                                self.add("C09", i, "the server was stopped but still reports tick %d after its next frame: the old session's tick counter is kept (the frame after a stop resets the server to its initial state)" % tick_now)
+                        if ran:
+                            for key_ in pending_chg:
+                                chg_tick[key_] = tick_now
+                            pending_chg = set()
+                        if any(x.startswith("cleanup-timer") for x in block):
+                            mut_msgs.clear()          # conservatively: acknowledgements arriving from now on may be junk for the server
                         if ran:
                             self.stats["ticks"] += 1
                         # buffered events are flushed by the next replication tick (independent ones at once): the recipients
@@ -410,6 +455,8 @@ class Trace:
                         self.stats[f[0]] += 1
                         if f[0] == "upd" and c in upd_sent:
                             upd_sent[c].append(int(kv_field(l, "t")))
+                            des_ = kv_field(l, "des")
+                            upd_des.setdefault(c, []).append(set() if des_ in (None, "-") else {int(x) for x in re.findall(r"\d+", des_)})
                         if c not in authorized:
                             self.add("C07", i, "replication message sent to a client that is not authorized: %s" % l)
                         view = snapshots.get((epoch, tick_now, c), {})
@@ -446,6 +493,15 @@ class Trace:
                                     for p_ in ("C01", "C03", "C08"):
                                         self.add(p_, i, why)
                         if f[0] == "mut":
+                            for e_, comps_ in body.items():
+                                a_ = acked_tick.get((sess_id.get(c), c, e_))
+                                for k_ in comps_:
+                                    ct_ = chg_tick.get((e_, k_))
+                                    if a_ is not None and ct_ is not None and not tick_lt(a_, ct_):
+                                        self.add("C11", i, "entity %d kind %d is re-sent to client %d in the mutate message of tick %d although the server had received the client's "
+                                                           "acknowledgement of a message of tick %d containing the entity and the component has not changed since tick %d" % (e_, k_, c, tick_now, a_, ct_))
+                            if kv_field(l, "i") is not None:
+                                mut_msgs[(sess_id.get(c), c, int(kv_field(l, "i")))] = (tick_now, set(body))
                             if kv_field(l, "i") is not None and kv_field(l, "u") is not None:
                                 mut_required[(sess_id.get(c), c, int(kv_field(l, "i")))] = int(kv_field(l, "u"))
                             muts_this_tick.setdefault(c, []).append(list(body))
@@ -511,7 +567,10 @@ class Trace:
                                                 ent=op[2] if len(op) > 2 else None)
                 for pc_ in pre_dead_pending.pop(c, []):
                     pre_dead.add((c, pc_))
+                just_despawned = set()
                 if c in upd_applied:
+                    for ds_ in upd_des.get(c, [])[upd_applied[c]:upd_delivered[c]]:
+                        just_despawned |= ds_
                     upd_applied[c] = upd_delivered[c]
                 got_line = [l for l in block if l.startswith("got %d " % c)]
                 cli_line = [l for l in block if l.startswith("cli %d " % c)]
@@ -548,6 +607,8 @@ class Trace:
                 for l in block:
                     if l.startswith("ack "):
                         self.stats["acks"] += 1
+                        if l.split()[1] == str(c) and len(l.split()) > 2 and c in connected:
+                            acks_inflight.setdefault(c, []).append([int(x_) for x_ in l.split()[2].split(",")])
                         # an acknowledgement tells the server the data was received AND applied: a message that is still
                         # waiting for its update message (required update tick ahead of the client's) must not be acknowledged
                         cl_ = [x for x in block if x.startswith("cli %d " % c)]
@@ -626,6 +687,15 @@ class Trace:
                         if prev is not None and prev != 0 and tick_lt(lt, prev):
                             self.add("C02", i, "client %d entity %d confirmed tick moved backwards %d -> %d" % (c, e, prev, lt))
                         ses["last"][e] = lt
+                        # C12: the per-entity history answers like a set of confirmed ticks: a tick it reported as confirmed
+                        # stays confirmed while it is inside the 64-tick window (unless the entity was despawned and sent again)
+                        hist_ = ses.setdefault("hist", {})
+                        now_set = {(lt - b) % 2**32 for b in range(64) if (x.get("mask") or 0) >> b & 1}
+                        if e in hist_ and e not in just_despawned:
+                            gone = sorted(t_ for t_ in hist_[e] if (lt - t_) % 2**32 < 64 and t_ not in now_set)
+                            if gone:
+                                self.add("C12", i, "client %d entity %d: ticks %r were confirmed in its history and are inside the window of its last tick %d, but the history no longer contains them" % (c, e, gone, lt))
+                        hist_[e] = now_set
                         s2 = snapshots.get((epoch, lt, c))
                         if s2 is None or e not in s2:
                             continue
@@ -643,6 +713,7 @@ class Trace:
                     for e in list(ses["last"]):
                         if e not in live:
                             del ses["last"][e]
+                            ses.get("hist", {}).pop(e, None)
                     ses["final"] = (ut, live)
         if settle_from is not None:
             last = len(steps) - 1
